@@ -633,6 +633,9 @@ def _node_representer(dumper, node):
                     assert tag.startswith('!null')
                     with dumper.force_unquoted():
                         return dumper.represent_scalar(tag, '', style='')
+                if isinstance(data, ConfigScalar) and issubclass(data._dyn_base, str):
+                    # let PyYAML quote and escape the text (a quoted tagged scalar is read back as str)
+                    return dumper.represent_scalar(tag, str(data), style='"')
                 with dumper.force_unquoted():
                     if isinstance(data, ConfigScalar):
                         return dumper.represent_scalar(tag, repr(data._dyn_base(data)))
